@@ -628,3 +628,75 @@ def _set_algebra(name, how, empty_result):
 _set_algebra("_bitwise_or", "union", lambda a, b: False)
 _set_algebra("_bitwise_and", "intersection", lambda a, b: COLL_DISJOINT(a, b))
 _set_algebra("_bitwise_xor", "symdiff", lambda a, b: COLL_SAME(a, b))
+
+
+# ------------------------------------------------------------------------------------------------ parser: literals
+from pyvc.spec import loop_invariant
+
+PARSER = "pydsdl._parser."
+
+
+def STRLEN(s):
+    if smt():
+        from pyvc.values import Str as _S
+
+        return z3.Length(_S.unwrap(s))
+    return len(s)
+
+
+def CHAR_AT(s, i):
+    """s[i] for i >= 0, s[len+i] for i < 0 (a one-character string)"""
+    if smt():
+        from pyvc.values import Str as _S
+
+        t = _S.unwrap(s)
+        return z3.SubString(t, i if i >= 0 else z3.Length(t) + i, 1)
+    return s[i]
+
+
+def BODY(s):
+    """the literal without its delimiters"""
+    if smt():
+        from pyvc.values import Str as _S
+
+        t = _S.unwrap(s)
+        return z3.SubString(t, 1, z3.Length(t) - 2)
+    return s[1:-1]
+
+
+def CONTAINS(s, sub):
+    if smt():
+        from pyvc.values import Str as _S
+
+        return z3.Contains(_S.unwrap(s), _S.unwrap(sub))
+    return sub in s
+
+
+@contract(PARSER + "_parse_string_literal", props=P)
+class _ParseStringLiteral:
+    """Domain: a literal delimited by one of the two quote characters whose body does not contain that quote character
+    (the grammar admits it after a backslash; such literals are not covered).  Any malformed escape sequence - including
+    a \\U escape beyond the last code point - is a syntax error, never anything else."""
+    params = dict(literal=Str)
+    returns = STRR
+    raises = {"DSDLSyntaxError": None}
+
+    def pre(s):
+        lit = s.literal
+        return {"delimited": AND(STRLEN(lit) >= 2, EQ(CHAR_AT(lit, 0), CHAR_AT(lit, -1)),
+                                 OR(EQ(CHAR_AT(lit, 0), "'"), EQ(CHAR_AT(lit, 0), '"'))),
+                "no-quote-inside": NOT(CONTAINS(BODY(lit), CHAR_AT(lit, 0)))}
+
+    def post(s):
+        return {"class": is_str(s.result)}
+
+
+def ITER_POS(it):
+    if smt():
+        return it.pos
+    return 0
+
+
+@loop_invariant(PARSER + "_parse_string_literal", loop=0)
+def _inv_parse_string(s):
+    return {"position": ITER_POS(s.iterator) >= 0}
